@@ -6,6 +6,7 @@ package main
 // checked for panics, hangs, over-allocation and safety of whatever was accepted.
 
 import (
+	"encoding/hex"
 	"bytes"
 	"fmt"
 	"reflect"
@@ -377,7 +378,10 @@ func (c *decCtx) wellTyped(mi *msgInfo, b []byte, merge, discard bool, init *V, 
 		d = dynamicpb.NewMessage(mi.md)
 	}
 	rerr, rpan := catchUnmarshal(proto.UnmarshalOptions{Merge: merge, DiscardUnknown: discard}, b, d)
-	if c.modelOK && (init == nil || !hasF32SNaN(si, mi, init)) {
+	if rpan != nil {
+		o.count("reference_panicked") // protobuf-go v1.34.0's reflective map decoder panics on a key record of the wrong wire type after a good one: no oracle
+	}
+	if c.modelOK && rpan == nil && (init == nil || !hasF32SNaN(si, mi, init)) {
 		// the reference's own answer, for the reference-decoder model (Model/RefDecode.v)
 		flags := ""
 		if merge {
@@ -449,7 +453,7 @@ func (c *decCtx) limited(mi *msgInfo, b []byte, limit int, discard bool) {
 	if pan != nil {
 		res = "panic"
 	} else if err == nil {
-		res = "ok " + si.fromGo(mi, reflect.ValueOf(q)).String()
+		res = "ok " + si.foreignNorm(mi, si.fromGo(mi, reflect.ValueOf(q))).String()
 	}
 	flags := "-"
 	if discard {
@@ -526,7 +530,11 @@ func (c *decCtx) malformed(mi *msgInfo, b []byte, class string) {
 		if rerr == nil && rpan == nil {
 			obs = "ok " + si.normV(mi, si.fromPR(mi, d)).String()
 		}
-		o.kase("REFDEC", []string{si.id, fmt.Sprint(mi.idx), "-", hx(b), "-"}, obs)
+		if rpan == nil {
+			o.kase("REFDEC", []string{si.id, fmt.Sprint(mi.idx), "-", hx(b), "-"}, obs)
+		} else {
+			o.count("reference_panicked")
+		}
 	}
 	alloc := ms1.TotalAlloc - ms0.TotalAlloc
 	o.count("malformed_" + class + "_" + strings.Fields(res)[0])
@@ -580,6 +588,13 @@ func nest(num protowire.Number, n int, inner []byte) []byte {
 	return b
 }
 
+var decodeRegressions = map[string][]string{
+	// a well-known type's bytes field: value then explicit empty occurrence (protobuf-go stores nil, the model an empty slice)
+	"vw.Wk": {"0a0712037a7a201200", "0a021200", "4a050a01610a00", "4a020a00", "22050a01611200"},
+	// map entry: good key, then a key record of the wrong wire type: protobuf-go v1.34.0's reflective decoder panics (no oracle)
+	"vm.Rm": {"0a0808dc1a0dc19bbe07", "0a0808dc1a0dc19bbe071200188080808001"},
+}
+
 func engineDecode(cfg config, o *out) {
 	schemas := loadSchemas()
 	o.hist["programs"] = len(schemas)
@@ -597,6 +612,11 @@ func engineDecode(cfg config, o *out) {
 			}
 			if len(mi.fields) == 0 {
 				n = 3
+			}
+			// minimised streams on which model and implementation once disagreed (run first, every tier)
+			for _, h := range decodeRegressions[si.id+"."+string(mi.md.Name())] {
+				b, _ := hex.DecodeString(h)
+				c.wellTyped(mi, b, false, false, nil, "regression")
 			}
 			var encs [][]byte
 			for k := 0; k < n; k++ {
